@@ -514,7 +514,7 @@ class C06(core.Check):
     )
 
     def gen_cases(self, rng: random.Random, tier: str) -> List[dict]:
-        n = 110 if tier == "quick" else 2500
+        n = 90 if tier == "quick" else 2500
         return [gen_program(rng, tier) for _ in range(n)]
 
     # ------------------------------------------------------------------ implementation
@@ -957,6 +957,16 @@ class C06(core.Check):
                 foreign = labs - own - set(user_g)
                 if foreign:
                     bad(f"geometry:shape-projects-to-foreign-label:{e['cls']}", f"{sorted(foreign)} not among its own geometry {sorted(own)}")
+
+        # ---- second opinion: the clauses decided by the Lean model on the dictionary it parsed from the file
+        fl = impl.get("flags")
+        if fl:
+            if fl.get("idx") == "0":
+                bad("parsed-file:index-out-of-range", "Lean: indicesOk (parse file) = false")
+            if fl.get("quads") == "0":
+                bad("parsed-file:quad-is-not-a-block-side", "Lean: quadsOk (parse file) = false")
+            if fl.get("geom") == "0":
+                bad("parsed-file:projection-label-undefined", "Lean: geometryOk (parse file) = false")
 
         # ---- VTK
         if impl["vtk"] is not None:
